@@ -18,6 +18,7 @@ import (
 	"google.golang.org/protobuf/encoding/protowire"
 	"google.golang.org/protobuf/proto"
 	"google.golang.org/protobuf/reflect/protoreflect"
+	"google.golang.org/protobuf/runtime/protoiface"
 	"google.golang.org/protobuf/types/dynamicpb"
 )
 
@@ -92,6 +93,8 @@ type libCtx struct {
 	r   *rng
 	cfg config
 	g   *vgen
+	// noModel: the set has shapes the extracted model does not know (explicit-presence scalars of proto2 types): no LIBEQ lines
+	noModel bool
 }
 
 type variant struct {
@@ -294,6 +297,25 @@ func (c *libCtx) slotAlts(fi fieldInfo, sv *V, depth int) []variant {
 				w := cloneV(sv)
 				w.L[0], w.L[n-1] = w.L[n-1], w.L[0]
 				out = append(out, variant{"listswap", w})
+			}
+		}
+	case presScalar(fd):
+		// explicit presence: unset <-> set (to the zero value too) is a difference of its own
+		if sv.K == 'n' {
+			z := zeroScalarV(fd)
+			if z.K == 'n' {
+				z = vBytes(nil)
+			}
+			out = append(out, variant{"unset2zero", z})
+			if x := c.g.scalarAt(fd, 1+c.r.intn(c.g.boundaryCount(fd))); x.K != 'n' {
+				out = append(out, variant{"unset2set", x})
+			}
+		} else {
+			out = append(out, variant{"set2unset", vNil})
+			for _, a := range c.scalarAlts(fd, sv) {
+				if a.v.K != 'n' {
+					out = append(out, a)
+				}
 			}
 		}
 	default:
@@ -512,6 +534,8 @@ func (c *libCtx) sameValueAlt(mi *msgInfo, v *V) *V {
 			} else {
 				w.L = append(w.L, c.sameValueAlt(c.cmi(fd), sv))
 			}
+		case presScalar(fd):
+			w.L = append(w.L, cloneV(sv)) // nil bytes = unset, empty bytes = set: not the same value
 		default:
 			w.L = append(w.L, elem(fd, sv))
 		}
@@ -546,6 +570,10 @@ func scribbleStruct(p reflect.Value) {
 func scribbleVal(f reflect.Value) {
 	switch f.Kind() {
 	case reflect.Ptr:
+		if !f.IsNil() && f.Elem().Kind() != reflect.Struct {
+			scribbleVal(f.Elem()) // *T of an explicit-presence scalar: overwrite the pointee
+			return
+		}
 		scribbleStruct(f)
 	case reflect.Interface:
 		if !f.IsNil() {
@@ -650,7 +678,9 @@ func (c *libCtx) equalPair(mi *msgInfo, v, w *V, vname string) {
 	if pan != nil {
 		obs = "panic"
 	}
-	o.kase("LIBEQ", []string{si.id, fmt.Sprint(mi.idx), v.String(), w.String()}, obs)
+	if !c.noModel {
+		o.kase("LIBEQ", []string{si.id, fmt.Sprint(mi.idx), v.String(), w.String()}, obs)
+	}
 	o.count("equal_" + obs)
 	kind := vname
 	if i := strings.IndexByte(kind, ':'); i >= 0 {
@@ -761,6 +791,214 @@ func (c *libCtx) resetAndInit(mi *msgInfo, v *V) {
 	empty := si.emptyV(mi)
 	o.withKey("lib/"+c.id(mi)+"/reset").prop("C10", pan == nil && si.normV(mi, si.fromGo(mi, reflect.ValueOf(g))).String() == c.normD(mi, d.ProtoReflect()) && size == 0 && eqFresh == eqFreshD && raw == empty.String(),
 		fmt.Sprintf("proto.Reset on %s: message then reads %s (want the zero struct %s), Size %d, Equal(fresh)=%v (reference %v), panic=%v; value %s", c.id(mi), raw, empty, size, eqFresh, eqFreshD, pan, v))
+}
+
+// ---- required fields below a generated message: initialised or not -------------------------------------
+// A generated message is initialised iff every message below it (of whatever implementation: generated, protobuf-go's own
+// proto2 types) has its required fields set. Whatever decides that for a generated message (the library's walk over its
+// reflection, or a CheckInitialized the generated ProtoMethods supply) must agree with the library's walk over a dynamicpb
+// message holding the same value, and so must everything that reports it: binary Marshal / Unmarshal, protojson, prototext,
+// each with and without AllowPartial. Results are compared whenever both sides succeed.
+type partialText struct {
+	name                string
+	marshalPartial      func(proto.Message) ([]byte, error)
+	unmarshal, unmarshP func([]byte, proto.Message) error
+}
+
+var partialTexts = []partialText{
+	{"protojson", protojson.MarshalOptions{AllowPartial: true}.Marshal, protojson.Unmarshal, protojson.UnmarshalOptions{AllowPartial: true}.Unmarshal},
+	{"prototext", prototext.MarshalOptions{AllowPartial: true}.Marshal, prototext.Unmarshal, prototext.UnmarshalOptions{AllowPartial: true}.Unmarshal},
+}
+
+func (c *libCtx) fieldMsg(fd protoreflect.FieldDescriptor) *msgInfo {
+	if fd.IsMap() {
+		fd = fd.MapValue()
+	}
+	if fd.Message() == nil {
+		return nil
+	}
+	return c.si.byName[fd.Message().FullName()]
+}
+
+// hasRequired: is a required field declared by the message or anywhere below it
+func (c *libCtx) hasRequired(mi *msgInfo, seen map[*msgInfo]bool) bool {
+	if mi == nil || seen[mi] {
+		return false
+	}
+	seen[mi] = true
+	if mi.md.RequiredNumbers().Len() > 0 {
+		return true
+	}
+	for _, fi := range mi.fields {
+		if c.hasRequired(c.fieldMsg(fi.fd), seen) {
+			return true
+		}
+	}
+	return false
+}
+
+// requiredOneHots: every field of mi through which a required field can be reached, populated alone (a few values each:
+// some initialised, some with a required field unset at some depth)
+func (c *libCtx) requiredOneHots(mi *msgInfo, perField, maxVar int) {
+	for i, fi := range mi.fields {
+		if !c.hasRequired(c.fieldMsg(fi.fd), map[*msgInfo]bool{}) {
+			continue
+		}
+		for k := 0; k < perField; k++ {
+			v := c.si.emptyV(mi)
+			if fi.oneofIdx >= 0 {
+				v.L[i] = &V{K: 's', P: c.g.msg(c.fieldMsg(fi.fd), 2, 3+c.r.intn(5))}
+			} else {
+				v.L[i] = c.g.field(fi, 3)
+			}
+			c.one(mi, v, "required-onehot", maxVar)
+		}
+	}
+}
+
+func (c *libCtx) initialized(mi *msgInfo, v, other *V) {
+	o, si := c.o, c.si
+	id := c.id(mi)
+	g := c.G(mi, v)
+	d := si.toDyn(mi, v)
+	refErr := proto.CheckInitialized(d)
+	init := refErr == nil
+	o.count("initialized_" + tf(init))
+	if !init {
+		o.nontrivial(si.id + "/" + fmt.Sprint(mi.idx) + "/uninitialized/" + shapeKey(v))
+		// through which positions is the missing required field reached (input distribution)
+		for i, fi := range mi.fields {
+			if fi.fd.Message() == nil && !(fi.fd.IsMap() && fi.fd.MapValue().Message() != nil) {
+				continue
+			}
+			w := si.emptyV(mi)
+			w.L[i] = v.L[i]
+			if proto.CheckInitialized(si.toDyn(mi, w)) != nil {
+				pos := "singular"
+				switch {
+				case fi.fd.IsMap():
+					pos = "mapvalue"
+				case fi.fd.IsList():
+					pos = "repeated"
+				case fi.oneofIdx >= 0:
+					pos = "oneof"
+				}
+				impl := "generated"
+				if cm := c.fieldMsg(fi.fd); cm != nil && !cm.pulsar {
+					impl = "proto2"
+				}
+				o.count("uninitialized_via_" + pos + "_" + impl)
+			}
+		}
+	}
+	// the generated fast path, when there is one, called the way the library calls it
+	if meth := g.ProtoReflect().ProtoMethods(); meth != nil && meth.CheckInitialized != nil {
+		var e error
+		pan := catchPanic(func() { _, e = meth.CheckInitialized(protoiface.CheckInitializedInput{Message: g.ProtoReflect()}) })
+		o.count("checkinit_fastpath")
+		o.withKey("lib/"+id+"/checkinitialized").prop("C10", pan == nil && (e == nil) == init,
+			fmt.Sprintf("ProtoMethods().CheckInitialized of %s: %v (panic %v), proto.CheckInitialized on the reference message holding the same value: %v; value %s", id, e, pan, refErr, v))
+	}
+	// binary Marshal in four option sets
+	key := "lib/" + id + "/marshal-initialized"
+	var partialEnc []byte
+	for _, mo := range []proto.MarshalOptions{{}, {AllowPartial: true}, {Deterministic: true}, {Deterministic: true, AllowPartial: true}} {
+		name := fmt.Sprintf("proto.MarshalOptions{Deterministic:%v AllowPartial:%v}.Marshal", mo.Deterministic, mo.AllowPartial)
+		var bg []byte
+		var eg error
+		pan := catchPanic(func() { bg, eg = mo.Marshal(g) })
+		bd, ed := mo.Marshal(d)
+		o.count("marshal_partial=" + tf(mo.AllowPartial) + "_" + map[bool]string{true: "ok", false: "rejects"}[ed == nil])
+		if pan != nil || (eg == nil) != (ed == nil) {
+			o.withKey(key).prop("C10", false, fmt.Sprintf("%s of %s: generated err=%v panic=%v, reference (initialised=%v) err=%v; value %s", name, id, eg, pan, init, ed, v))
+			continue
+		}
+		if ed != nil {
+			o.withKey(key).prop("C10", true, "")
+			continue
+		}
+		if mo.AllowPartial && mo.Deterministic {
+			partialEnc = bd
+		}
+		pg, pd := dynamicpb.NewMessage(mi.md), dynamicpb.NewMessage(mi.md)
+		e1 := proto.UnmarshalOptions{AllowPartial: true}.Unmarshal(bg, pg)
+		e2 := proto.UnmarshalOptions{AllowPartial: true}.Unmarshal(bd, pd)
+		o.withKey(key).prop("C10", e1 == nil && e2 == nil && proto.Equal(pg, pd), fmt.Sprintf("%s of %s: the generated message's bytes %s denote %s (%v), the reference's bytes %s denote %s (%v); value %s", name, id, hx(bg), c.normD(mi, pg), e1, hx(bd), c.normD(mi, pd), e2, v))
+	}
+	o.withKey(key).prop("C10", c.rawG(mi, g) == sortedStr(v), fmt.Sprintf("Marshal / CheckInitialized modified the message %s: %s", id, v))
+	// binary Unmarshal of the (possibly partial) reference encoding into a fresh message
+	if partialEnc != nil {
+		key := "lib/" + id + "/unmarshal-initialized"
+		for _, uo := range []proto.UnmarshalOptions{{}, {AllowPartial: true}, {DiscardUnknown: true}, {DiscardUnknown: true, AllowPartial: true}} {
+			key := key
+			name := fmt.Sprintf("proto.UnmarshalOptions{DiscardUnknown:%v AllowPartial:%v}.Unmarshal", uo.DiscardUnknown, uo.AllowPartial)
+			tg, td := c.newG(mi), dynamicpb.NewMessage(mi.md)
+			var eg error
+			pan := catchPanic(func() { eg = uo.Unmarshal(partialEnc, tg) })
+			ed := uo.Unmarshal(partialEnc, td)
+			o.count("unmarshal_partial=" + tf(uo.AllowPartial) + "_discard=" + tf(uo.DiscardUnknown) + "_" + map[bool]string{true: "ok", false: "rejects"}[ed == nil])
+			if pan == nil && eg == nil && ed != nil && uo.DiscardUnknown && !uo.AllowPartial && !init {
+				// D19 (fixed in /repo ca6179d): the generated Unmarshal echoed its input flags into UnmarshalOutput.Flags; the input
+				// bit UnmarshalDiscardUnknown is the output bit UnmarshalInitialized, so the library skipped its required-fields check
+				key = "lib/unmarshal-discardunknown-skips-required-check/" + id
+			}
+			if pan != nil || (eg == nil) != (ed == nil) {
+				o.withKey(key).prop("C10", false, fmt.Sprintf("%s of %s into a fresh %s: generated err=%v panic=%v, reference err=%v; value encoded %s", name, hx(partialEnc), id, eg, pan, ed, v))
+				continue
+			}
+			if ed != nil {
+				o.withKey(key).prop("C10", true, "")
+				continue
+			}
+			a, b := c.normG(mi, tg), c.normD(mi, td.ProtoReflect())
+			o.withKey(key).prop("C10", a == b, fmt.Sprintf("%s of %s into a fresh %s: generated gives %s, reference gives %s; value encoded %s", name, hx(partialEnc), id, a, b, v))
+		}
+	}
+	if init {
+		return
+	}
+	// JSON / text of an uninitialised value: textual() saw both sides reject it; with AllowPartial both must give a text,
+	// and parsing the reference's text must fail without AllowPartial and succeed with it, on both sides
+	for _, pt := range partialTexts {
+		key := "lib/" + id + "/" + pt.name
+		var tg []byte
+		var eg error
+		pan := catchPanic(func() { tg, eg = pt.marshalPartial(g) })
+		td, ed := pt.marshalPartial(d)
+		if pan != nil || (eg == nil) != (ed == nil) {
+			o.withKey(key).prop("C10", false, fmt.Sprintf("%s Marshal with AllowPartial of %s: generated err=%v panic=%v, reference err=%v; value %s", pt.name, id, eg, pan, ed, v))
+			continue
+		}
+		if ed != nil {
+			o.count(pt.name + "_partial_both_reject")
+			continue
+		}
+		pg, pd := dynamicpb.NewMessage(mi.md), dynamicpb.NewMessage(mi.md)
+		e1, e2 := pt.unmarshP(tg, pg), pt.unmarshP(td, pd)
+		if e1 != nil && e2 != nil {
+			o.count(pt.name + "_partial_reparse_both_reject")
+			continue
+		}
+		o.count(pt.name + "_partial_marshal_ok")
+		o.withKey(key).prop("C10", e1 == nil && e2 == nil && proto.Equal(pg, pd), fmt.Sprintf("%s Marshal with AllowPartial of %s: the generated message's text %q denotes %s (%v), the reference's text %q denotes %s (%v); value %s", pt.name, id, tg, c.normD(mi, pg), e1, td, c.normD(mi, pd), e2, v))
+		for k, um := range []func([]byte, proto.Message) error{pt.unmarshal, pt.unmarshP} {
+			tgt, ref := c.newG(mi), dynamicpb.NewMessage(mi.md)
+			var e3 error
+			pan := catchPanic(func() { e3 = um(td, tgt) })
+			e4 := um(td, ref)
+			o.count(pt.name + "_unmarshal_partial=" + tf(k == 1) + "_" + map[bool]string{true: "ok", false: "rejects"}[e4 == nil])
+			if pan != nil || (e3 == nil) != (e4 == nil) {
+				o.withKey(key).prop("C10", false, fmt.Sprintf("%s Unmarshal (AllowPartial=%v) of %q into a fresh %s: generated err=%v panic=%v, reference err=%v", pt.name, k == 1, td, id, e3, pan, e4))
+				continue
+			}
+			if e4 != nil {
+				o.withKey(key).prop("C10", true, "")
+				continue
+			}
+			a, b := c.normG(mi, tgt), c.normD(mi, ref.ProtoReflect())
+			o.withKey(key).prop("C10", a == b, fmt.Sprintf("%s Unmarshal (AllowPartial=%v) of %q into a fresh %s gives %s, the reference message gives %s", pt.name, k == 1, td, id, a, b))
+		}
+	}
 }
 
 // ---- protojson / prototext --------------------------------------------------------------------------
@@ -953,7 +1191,7 @@ func (c *libCtx) hasWKT(mi *msgInfo, seen map[*msgInfo]bool) bool {
 		return false
 	}
 	seen[mi] = true
-	if strings.HasPrefix(string(mi.md.FullName()), "google.protobuf.") {
+	if strings.HasPrefix(string(mi.md.FullName()), "google.protobuf.") && mi.md.ParentFile().Path() != "google/protobuf/descriptor.proto" {
 		return true
 	}
 	for _, fi := range mi.fields {
@@ -983,9 +1221,9 @@ func (c *libCtx) one(mi *msgInfo, v *V, class string, maxVariants int) {
 	o.prop("C10", si.normV(mi, same).String() == si.normV(mi, v).String(), "harness self-check: sameValueAlt changed the value "+v.String()+" / "+same.String())
 	c.equalPair(mi, v, cloneV(v), "identical")
 	c.equalPair(mi, v, same, "other-history")
-	if b, err := (proto.MarshalOptions{}).Marshal(c.G(mi, v)); err == nil {
+	if b, err := (proto.MarshalOptions{AllowPartial: true}).Marshal(c.G(mi, v)); err == nil {
 		q := c.newG(mi)
-		if proto.Unmarshal(b, q) == nil {
+		if (proto.UnmarshalOptions{AllowPartial: true}).Unmarshal(b, q) == nil {
 			c.equalPair(mi, v, si.fromGo(mi, reflect.ValueOf(q)), "decoded")
 		}
 	}
@@ -1033,6 +1271,9 @@ func (c *libCtx) one(mi *msgInfo, v *V, class string, maxVariants int) {
 	}
 	c.resetAndInit(mi, v)
 	c.textual(mi, v, other, valid)
+	if valid {
+		c.initialized(mi, v, other)
+	}
 }
 
 func (c *libCtx) nilTop(mi *msgInfo) {
@@ -1054,11 +1295,13 @@ func (c *libCtx) nilTop(mi *msgInfo) {
 }
 
 func engineLib(cfg config, o *out) {
-	schemas := loadSchemas()
+	schemas := loadSchemasSel(true)
 	o.hist["programs"] = len(schemas)
 	for _, si := range schemas {
-		o.raw("SCHEMA\t" + si.id + "\t=\t" + si.sexp())
-		c := &libCtx{o: o, si: si, r: newRng(cfg.seed, "lib/"+si.id), cfg: cfg}
+		c := &libCtx{o: o, si: si, r: newRng(cfg.seed, "lib/"+si.id), cfg: cfg, noModel: modelFreeSets[si.id]}
+		if !c.noModel {
+			o.raw("SCHEMA\t" + si.id + "\t=\t" + si.sexp())
+		}
 		c.g = &vgen{r: c.r, si: si, nilElems: true}
 		for _, mi := range si.roots() {
 			wkt := c.hasWKT(mi, map[*msgInfo]bool{})
@@ -1077,6 +1320,9 @@ func engineLib(cfg config, o *out) {
 			}
 			c.nilTop(mi)
 			c.one(mi, si.emptyV(mi), "empty", maxVar)
+			if c.hasRequired(mi, map[*msgInfo]bool{}) {
+				c.requiredOneHots(mi, n/6, maxVar)
+			}
 			for k := 0; k < n; k++ {
 				c.g.badUTF8 = k%7 == 6
 				v := c.g.msg(mi, 3, 2+c.r.intn(7))
